@@ -226,8 +226,26 @@ func lastUses(s seq, blockGranular bool) (bind [2]int, last [2]int) {
 		switch {
 		case e.isBind():
 			bind[i], last[i], bindDepth[i] = j, j, depth
-			if e == C2s && bind[0] >= 0 && j > last[0] {
-				last[0] = j // the copy reads r1 (block granularity does not matter: same statement list or deeper is handled by the compiler's own rule, the precise model only needs >=)
+			if e == C2s && bind[0] >= 0 {
+				// the copy reads r1: a use of r1, block-granular like every other use
+				u := j
+				if blockGranular && depth > bindDepth[0] {
+					d := depth
+					for k := j + 1; k < len(s); k++ {
+						if s[k] == Open {
+							d++
+						} else if s[k] == Close {
+							d--
+							if d == bindDepth[0] {
+								u = k
+								break
+							}
+						}
+					}
+				}
+				if u > last[0] {
+					last[0] = u
+				}
 			}
 		case e.isUse():
 			u := j
